@@ -310,7 +310,7 @@ class StreamInit(SetAsyncGiven):
         st.ghost['u0'] = VRef(u0, 'Stream')
         self.declare_witness(I)
         st.fieldmaps[('Stream', 'downstreams')] = z3.Const('dsets0', z3.ArraySort(sym.Obj, sym.Obj))
-        ups = VSeq(self.U, K_STREAM)
+        ups = st.new_list(self.U, K_STREAM)      # the caller's own list object: the node must not keep (alias) it
         self.finish(I, {'self': selfv, 'asynchronous': a, 'loop': l, 'ensure_io_loop': e, 'upstreams': ups})
         return selfv, [], {'upstreams': ups, 'loop': l, 'asynchronous': a, 'ensure_io_loop': e}
 
@@ -381,11 +381,20 @@ class StreamInit(SetAsyncGiven):
             Clause('C19.G5_loop_requiring_node_falls_back_to_the_background_loop', ['C19'], when='return',
                    text="implies(ensure_io_loop and not %s and not %s and %s and %s, "
                         "elem(self.asynchronous) == 'False' and self.loop is BACKGROUND())" % (a_given, l_given, no_up_loop, no_up_async)),
+            Clause('C19.G5_the_fallback_mode_percolates_to_the_pipeline', ['C19'], when='return',
+                   text="implies(ensure_io_loop and not %s and not %s and %s and %s, async_of(u0) == 'False')"
+                        % (a_given, l_given, no_up_loop, no_up_async),
+                   note='the whole pipeline is put into blocking mode together with the background loop: a node added later with '
+                        'asynchronous=True must find the conflict (u0 is an arbitrary upstream)'),
             Clause('C19.plain_node_without_information_stays_unset', ['C19'], when='return',
                    text="implies(not ensure_io_loop and not %s and not %s and %s and %s, self.loop is None and self.asynchronous is None)"
                         % (a_given, l_given, no_up_loop, no_up_async)),
             Clause('C15.registered_as_downstream_of_every_upstream', ['C15', 'C19'], when='return',
                    text='added_to == ds_of(U) and list(self.upstreams) == U'),
+            Clause('C15.the_node_owns_its_list_of_upstreams', ['C15'], when='return',
+                   text='not (self.upstreams is upstreams) and list(upstreams) == U',
+                   note='two nodes built from the same list must not share it: connect / disconnect / destroy on one of them would '
+                        'edit the links of the other on one end only'),
             Clause('C19.only_ValueError_is_raised', ['C19'], when='raise', text='True'),
         ]
 
